@@ -7,6 +7,7 @@
 #include "BaseGraph/algorithms/paths.hpp"
 
 #include <cmath>
+#include <cstring>
 #include <functional>
 #include <limits>
 
@@ -32,6 +33,8 @@ struct CountingWeighted {
     }
     EdgeWeight getEdgeWeight(VertexIndex i, VertexIndex j) const { return g->getEdgeWeight(i, j); }
 };
+
+uint64_t g_digest = 0;
 
 struct WRef {
     size_t n;
@@ -95,6 +98,15 @@ std::string checkSource(const G &g, const Model &m, const WRef &r, unsigned s, b
         return "findGeodesicsDijkstra from " + std::to_string(s) + " scanned more than " + std::to_string(cg.cap) + " neighbourhoods (V=" + std::to_string(V) + ", E=" + std::to_string(E) + ")";
     }
     maxScans = std::max<unsigned long long>(maxScans, cg.scans);
+    if (exact) {
+        for (double dv : res.first) {
+            uint64_t bits;
+            std::memcpy(&bits, &dv, 8);
+            g_digest = (g_digest ^ bits) * 1099511628211ULL + 7;
+        }
+        for (auto pv : res.second)
+            g_digest = (g_digest ^ (uint64_t)pv) * 1099511628211ULL + 7;
+    }
     auto ref = bellmanFord(r, s);
     const auto &dist = res.first;
     const auto &pred = res.second;
@@ -191,6 +203,7 @@ void run(const Case &c, verif_result *out) {
     StepFacts facts;
     std::string observer, r, where = "build";
     unsigned long long maxScans = 0;
+    g_digest = 1469598103934665603ULL;
     try {
         std::string fam = c.get("family", "");
         GSpec s;
@@ -255,7 +268,7 @@ void run(const Case &c, verif_result *out) {
     size_t E = 0;
     for (unsigned v = 0; v < m.n; ++v)
         E += g.getOutNeighbours(v).size();
-    fillResult(out, 0, nt, prop == "C19" ? m.n + E + 1 : 0, "", joinTags(facts), "");
+    fillResult(out, 0, nt, prop == "C19" ? m.n + E + 1 : g_digest, "", joinTags(facts), "");
     out->work = maxScans;
 }
 
